@@ -31,7 +31,7 @@ LEVEL = "model_checking"
 
 DT2NP = {"bool": "bool", "u8": "uint8", "i32": "int32", "i64": "int64", "f16": "float16", "f32": "float32", "f64": "float64"}
 NP2DT = {v: k for k, v in DT2NP.items()}
-TOL = {"f16": (1e-2, 1e-2), "f32": (1e-4, 1e-5), "f64": (1e-7, 1e-9)}
+TOL = {"f16": (2e-2, 2e-2), "f32": (1e-3, 1e-4), "f64": (1e-6, 1e-8)}
 
 _STATE: dict = {}
 
@@ -137,6 +137,8 @@ def _torch_arg(x):
         return int(x["v"])
     if k == "f":
         return float(x["v"])
+    if k == "fx":
+        return float(f"{x['v']}e{x['data'][0]}")
     if k == "b":
         return bool(x["v"])
     if k == "il":
@@ -267,29 +269,7 @@ def trace_model(qname, pos, kw, fn=None):
 _UNSUPPORTED = ("NOT_IMPLEMENTED", "Could not find an implementation", "is not a registered function/op")
 
 
-def run_onnx(case):
-    import onnxruntime as ort
-
-    ort.set_default_logger_severity(4)
-    pos, kw = _split_args(case["args"])
-    try:
-        proto, feeds, st = trace_model(case["op"], pos, kw)
-    except NotImplementedError as e:
-        return {"err": "declined", "msg": f"NotImplementedError: {str(e)[:200]}"}
-    except Exception as e:  # noqa: BLE001
-        return {"err": "trace", "msg": f"{type(e).__name__}: {str(e)[:300]}"}
-    try:
-        sess = core.ort_session(proto)
-    except Exception as e:  # noqa: BLE001
-        msg = str(e)
-        kind = "unsupported" if any(u in msg for u in _UNSUPPORTED) else "load"
-        return {"err": kind, "msg": f"{type(e).__name__}: {msg[:300]}"}
-    try:
-        outs = sess.run(None, feeds)
-    except Exception as e:  # noqa: BLE001
-        msg = str(e)
-        kind = "unsupported" if any(u in msg for u in _UNSUPPORTED) else "run"
-        return {"err": kind, "msg": f"{type(e).__name__}: {msg[:300]}"}
+def _enc_outs(outs, st):
     ts = []
     for o in outs:
         if isinstance(o, list):          # a sequence output
@@ -300,11 +280,59 @@ def run_onnx(case):
     return {"st": st, "ts": ts}
 
 
+def run_onnx(case):
+    """-> (result | error record, (proto, feeds, st) | None)"""
+    import onnxruntime as ort
+
+    ort.set_default_logger_severity(4)
+    pos, kw = _split_args(case["args"])
+    try:
+        proto, feeds, st = trace_model(case["op"], pos, kw)
+    except NotImplementedError as e:
+        return {"err": "declined", "msg": f"NotImplementedError: {str(e)[:200]}"}, None
+    except Exception as e:  # noqa: BLE001
+        return {"err": "trace", "msg": f"{type(e).__name__}: {str(e)[:300]}"}, None
+    traced = (proto, feeds, st)
+    try:
+        sess = core.ort_session(proto)
+    except Exception as e:  # noqa: BLE001
+        msg = str(e)
+        kind = "unsupported" if any(u in msg for u in _UNSUPPORTED) else "load"
+        return {"err": kind, "msg": f"{type(e).__name__}: {msg[:300]}"}, traced
+    try:
+        outs = sess.run(None, feeds)
+    except Exception as e:  # noqa: BLE001
+        msg = str(e)
+        kind = "unsupported" if any(u in msg for u in _UNSUPPORTED) else "run"
+        return {"err": kind, "msg": f"{type(e).__name__}: {msg[:300]}"}, traced
+    return _enc_outs(outs, st), traced
+
+
+def run_reference(traced):
+    """the same model on onnx.reference.ReferenceEvaluator: used only to tell a defect of the
+    graph from a defect of onnxruntime when the two runtimes disagree"""
+    import onnx.reference
+
+    proto, feeds, st = traced
+    try:
+        with warnings.catch_warnings():
+            warnings.simplefilter("ignore")
+            outs = onnx.reference.ReferenceEvaluator(proto).run(None, feeds)
+        return _enc_outs(outs, st)
+    except Exception as e:  # noqa: BLE001
+        return {"err": "ref", "msg": f"{type(e).__name__}: {str(e)[:200]}"}
+
+
 def run_case(case):
     import torch
 
     torch.set_num_threads(1)
-    return {"torch": run_torch(case), "onnx": run_onnx(case)}
+    t = run_torch(case)
+    o, traced = run_onnx(case)
+    out = {"torch": t, "onnx": o}
+    if traced is not None and "err" not in t and o.get("err") != "unsupported" and ("err" in o or diff_results(t, o)):
+        out["ref"] = run_reference(traced)
+    return out
 
 
 # ------------------------------------------------------------------ comparison
@@ -342,7 +370,7 @@ def spec_result(rec):
     """TLC's result record -> the encoding used for torch/onnx results (None for a refusal)"""
     if rec["st"] == "err":
         return None
-    st = "one" if rec["st"] == "one" else "many"
+    st = rec["st"] if rec["st"] in ("one", "first") else "many"
     return {"st": st, "ts": [{"dt": t["dt"], "shape": list(t["shape"]), "data": list(t["data"])} for t in rec["ts"]], "vals": rec["vals"]}
 
 
@@ -353,3 +381,260 @@ def diff_spec(spec, got):
     g2 = {"st": got["st"], "ts": [{**t, "data": []} for t in got["ts"]]}
     s2 = {"st": spec["st"], "ts": [{**t, "data": []} for t in spec["ts"]]}
     return diff_results(s2, g2, exact=True)
+
+
+# ------------------------------------------------------------------ TLC side
+FAMILIES = ("binary", "unary", "select", "reduce", "view", "index", "create", "matmul", "nn")
+REFUSALS = ("trace", "load", "run")
+
+
+def _cfg_text(families, wide, invariants):
+    fam = "{" + ", ".join(f'"{f}"' for f in families) + "}"
+    return ("SPECIFICATION Spec\nCONSTANTS\n  Deviations <- AllDevs\n  Wide = " + ("TRUE" if wide else "FALSE") + "\n"
+            + "".join(f"INVARIANT {i}\n" for i in invariants) + "CHECK_DEADLOCK FALSE\n"), fam
+
+
+def _tlc_family(arg):
+    fam, tier, reg_path, workers = arg
+    cfg = f"AtenOps_{'q' if tier == 'quick' else 't'}_{fam}.cfg"
+    res = core.run_tlc("AtenOps", cfg, env={"C08_REG": reg_path}, timeout=2400, workers=workers, heap="4g")
+    cases = []
+    for line in res.out.splitlines():
+        if line.startswith('"C08CASE '):
+            cases.append(json.loads(json.loads(line)[len("C08CASE "):]))
+    res.out = "\n".join(l for l in res.out.splitlines() if not l.startswith('"C08CASE '))[-4000:]
+    return fam, res, cases
+
+
+def tlc_cases(ctx, reg_path):
+    """one TLC run per family, run concurrently; design-level invariants must hold"""
+    from concurrent.futures import ThreadPoolExecutor
+
+    workers = 2 if ctx.quick else max(2, core.NCPU // 4)
+    with ThreadPoolExecutor(max_workers=len(FAMILIES)) as ex:
+        outs = list(ex.map(_tlc_family, [(f, ctx.tier, reg_path, workers) for f in FAMILIES]))
+    allcases = []
+    for fam, res, cases in outs:
+        ctx.tlc(res, f"AtenOps/{fam}")
+        if not res.ok:
+            raise core.MachineryError(f"TLC reports {res.violated} on AtenOps family {fam}:\n{res.out[-2000:]}")
+        if not cases:
+            raise core.MachineryError(f"vacuity: AtenOps family {fam} produced no case (registry empty?)")
+        for c in cases:
+            c["family"] = fam
+        allcases += cases
+    for cfg, what in (("AtenOps_vacuity.cfg", "no case is reachable"), ("AtenOps_canfail.cfg", "the implementation model never departs from ATen: DesignOK cannot fail")):
+        vac = core.run_tlc("AtenOps", cfg, env={"C08_REG": reg_path}, timeout=600, workers=4, heap="2g")
+        ctx.tlc(vac, cfg)
+        if vac.ok:
+            raise core.MachineryError(f"vacuity: {what} ({cfg})")
+    return allcases
+
+
+# ------------------------------------------------------------------ judging one case
+def _first_only(res, n):
+    return {"st": "one" if n == 1 else res["st"], "ts": res["ts"][:n]}
+
+
+def observe(case, r):
+    """-> (kind, detail): kind in ok | wrong | refused | discarded | torch_refused | hang"""
+    if not isinstance(r, dict):
+        return "hang", repr(r)
+    t, o = r["torch"], r["onnx"]
+    if "err" in t:
+        return "torch_refused", t["msg"]
+    ref = r.get("ref")
+    ref_ok = ref is not None and "err" not in ref
+    first = case["exp"]["st"] == "first"
+    if "err" in o:
+        if o["err"] in ("unsupported", "declined"):
+            return "discarded", o["err"] + ": " + o["msg"]
+        if o["err"] == "run" and ref_ok and not diff_results(t if not first else _first_only(t, 1), ref if not first else _first_only(ref, 1)):
+            return "discarded", "onnxruntime refuses a model the reference evaluator runs to PyTorch's result: " + o["msg"]
+        return "refused", o["err"] + ": " + o["msg"]
+    if first:
+        t, o = _first_only(t, 1), _first_only(o, 1)
+        ref = _first_only(ref, 1) if ref_ok else ref
+    d = diff_results(t, o)
+    if d is None:
+        return "ok", ""
+    if ("shape" in d or "values" in d) and ref_ok and not diff_results(t, ref):
+        return "discarded", "onnxruntime and the reference evaluator disagree on the same graph (the latter agrees with PyTorch): " + d
+    return "wrong", d
+
+
+def brief(case):
+    parts = []
+    for x in case["args"]:
+        k = x["k"]
+        nm = (x["nm"] + "=") if x["nm"] else ""
+        if k == "t":
+            parts.append(f"{nm}{x['s']}{list(x['shape'])}{list(x['data'])[:8]}")
+        elif k in ("i", "f", "b"):
+            parts.append(f"{nm}{ {'i': int, 'f': float, 'b': bool}[k](x['v'])!r}")
+        elif k == "fx":
+            parts.append(f"{nm}{x['v']}e{x['data'][0]}")
+        elif k == "il":
+            parts.append(f"{nm}{list(x['data'])}")
+        elif k == "n":
+            parts.append(f"{nm}None")
+        elif k == "tl":
+            parts.append(f"{nm}[{x['v']} tensors:")
+        else:
+            parts.append(f"{nm}{x['s']}")
+    return f"{case['op']}({', '.join(parts)})"
+
+
+def judge(ctx, case, r, stats, groups):
+    kind, detail = observe(case, r)
+    stats[kind] = stats.get(kind, 0) + 1
+    spec = spec_result(case["exp"])
+    model = spec_result(case["impl"])
+    why = sorted(case["why"])
+    mism = None
+    if kind == "hang":
+        mism = f"the replay worker did not finish: {detail}"
+    elif kind == "torch_refused":
+        mism = f"domain: PyTorch refuses a call the spec places in the operator's domain: {detail}"
+    else:
+        t = r["torch"]
+        if spec["st"] == "first":
+            spec = {**spec, "st": "one"}
+            t = _first_only(t, 1)
+            if model is not None:
+                model = {**model, "st": "one"}
+        d = diff_spec(spec, t)
+        if d:
+            mism = f"aten: TLC's ATen result differs from torch eager: {d}"
+    if mism:
+        stats["spec_mismatch"] = stats.get("spec_mismatch", 0) + 1
+        if stats["spec_mismatch"] <= 15:
+            print(f"SPEC-MISMATCH C08 {brief(case)}: {mism}", flush=True)
+        return
+    # implementation model vs the real function
+    m2 = None
+    if kind == "ok":
+        if model is None or diff_spec({**model, "vals": model["vals"] and spec["vals"]}, r["torch"] if case["exp"]["st"] != "first" else _first_only(r["torch"], 1)):
+            m2 = f"the model predicts a departure ({why or 'no deviation'}) but the real function agrees with PyTorch"
+    elif kind == "refused":
+        ref = r.get("ref")
+        if model is not None and not (ref is not None and "err" not in ref and not diff_spec(model, ref if case["exp"]["st"] != "first" else _first_only(ref, 1))):
+            m2 = f"the model predicts a result but the real function is refused ({detail[:160]})"
+    elif kind == "wrong":
+        o = r["onnx"] if case["exp"]["st"] != "first" else _first_only(r["onnx"], 1)
+        if model is None:
+            m2 = f"the model predicts a refusal but the real function runs ({detail[:160]})"
+        else:
+            dm = diff_spec(model, o)
+            ref = r.get("ref")
+            if dm and ref is not None and "err" not in ref and not diff_spec(model, ref if case["exp"]["st"] != "first" else _first_only(ref, 1)):
+                dm = None      # a kernel of onnxruntime, not the graph, departs from the model (the reference evaluator follows it)
+            if dm:
+                m2 = f"the model's result differs from what the real function computes: {dm}"
+    if m2:
+        stats["model_mismatch"] = stats.get("model_mismatch", 0) + 1
+        if stats["model_mismatch"] <= 15:
+            print(f"SPEC-MISMATCH C08 {brief(case)}: impl: {m2}", flush=True)
+    # the property
+    if kind in ("wrong", "refused"):
+        finding = why[0] if (why and not m2) else None
+        key = (finding, case["op"], kind)
+        groups.setdefault(key, []).append((case, r, detail))
+
+
+def report_groups(ctx, groups, per_group=2):
+    for (finding, op, kind), items in sorted(groups.items(), key=lambda kv: (str(kv[0][0]), kv[0][1], kv[0][2])):
+        ctx.coverage.setdefault("property_failures", []).append({"finding": finding, "op": op, "kind": kind, "cases": len(items), "example": brief(items[0][0])})
+        for case, r, detail in items[:per_group]:
+            what = (f"{brief(case)}: traced ONNX graph on onnxruntime "
+                    + (f"is refused ({detail[:200]})" if kind == "refused" else f"differs from torch eager - {detail}")
+                    + f" [{len(items)} such case(s) for this operator" + (f", deviation {finding}]" if finding else "]"))
+            ctx.report({"op": case["op"], "args": case["args"], "exp": case["exp"], "impl": case["impl"], "why": case["why"],
+                        "torch": r["torch"], "onnx": r["onnx"], "ref": r.get("ref")}, what, finding=finding)
+
+
+def nontrivial(case) -> bool:
+    """the call exercises more than an identity: some argument besides `self`, or a non-trivial shape"""
+    ts = [x for x in case["args"] if x["k"] == "t"]
+    return len(case["args"]) > 1 or any(len(x["shape"]) >= 1 for x in ts)
+
+
+def select_cases(ctx, cases):
+    """quick: every case that the implementation model marks as deviating is kept up to a cap per
+    (deviation, op); the rest is sampled per operator"""
+    if not ctx.quick:
+        return cases
+    rng = random.Random(ctx.seed)
+    byop: dict = {}
+    for c in cases:
+        byop.setdefault(c["op"], []).append(c)
+    out = []
+    for op in sorted(byop):
+        lst = byop[op]
+        rng.shuffle(lst)
+        dev = [c for c in lst if c["why"]]
+        rest = [c for c in lst if not c["why"]]
+        seen: dict = {}
+        for c in dev:
+            k = tuple(sorted(c["why"]))
+            if seen.get(k, 0) < 6:
+                seen[k] = seen.get(k, 0) + 1
+                out.append(c)
+        out += rest[:QUICK_PER_OP]
+    return out
+
+
+QUICK_PER_OP = int(os.environ.get("VERIF_C08_PER_OP", "45"))
+
+
+def run(ctx: core.Ctx):
+    import torch
+
+    torch.set_num_threads(1)
+    reg_path = os.path.join(core.scratch(), "c08_registry.json")
+    reg = dump_registry(reg_path)
+    ctx.set("registry_entries", len(reg))
+    cases = tlc_cases(ctx, reg_path)
+    ctx.set("spec_cases", len(cases))
+    ctx.set("operators_in_spec", len({c["op"] for c in cases}))
+    chosen = select_cases(ctx, cases)
+    results = core.pmap_safe(run_case, chosen, timeout=120)
+    stats: dict = {}
+    groups: dict = {}
+    nontriv = set()
+    for c, r in zip(chosen, results):
+        ctx.add("evaluations")
+        if nontrivial(c):
+            nontriv.add(json.dumps([c["op"], c["args"]], sort_keys=True))
+        judge(ctx, c, r, stats, groups)
+    for c, r in list(zip(chosen, results))[:: max(1, len(chosen) // 4)][:4]:
+        ctx.sample({"call": brief(c), "spec": c["exp"], "torch": r.get("torch") if isinstance(r, dict) else repr(r),
+                    "onnx": r.get("onnx") if isinstance(r, dict) else None})
+    report_groups(ctx, groups)
+    ctx.set("outcomes", stats)
+    ctx.set("distinct_nontrivial", len(nontriv))
+    ctx.set("traces_validated_against_impl", ctx.coverage.get("evaluations", 0))
+    ctx.set("model_impl_mismatches", stats.get("model_mismatch", 0) + stats.get("spec_mismatch", 0))
+    ctx.set("exhaustive", not ctx.quick)
+    ctx.set("rule", "cases = 'done' states of AtenOps.tla (registered overload x argument tuple of the family menu inside the "
+                    "operator's domain); non-trivial = the call has an argument besides self or a tensor of rank >= 1; distinct by (op, args)")
+    ctx.assumptions += [
+        "operator level: tensor operands of one call share an element type admitted by the function's declared type constraints, and python scalars are of a category not above the tensors' (the exporter's type-promotion pass establishes this before lowering); mixed types are exercised end to end only",
+        "onnxruntime (optimizations disabled) is the runtime; a run-time refusal or a shape/value difference is only judged when onnx.reference.ReferenceEvaluator does not reproduce PyTorch's result on the same graph (otherwise the runtime, not the graph, is at fault); load-time rejections and element-type/structure differences are always judged",
+        "NotImplementedError raised by a torch_lib function and NOT_IMPLEMENTED kernels of onnxruntime are counted, not judged",
+        "values are small integers (also in float tensors): float kernels (softmax, norms, pooling, conv, mean, true division, transcendental unary) are specified in structure/dtype/shape only and compared torch-vs-onnx with rtol/atol f16 2e-2, f32 1e-3/1e-4, f64 1e-6/1e-8",
+        "save_mean/save_invstd of _native_batch_norm_legit_no_training and mean/rstd of native_layer_norm on float16 are device dependent in PyTorch and not constrained",
+    ]
+
+
+def replay(ctx, path):
+    import torch
+
+    torch.set_num_threads(1)
+    with open(path) as f:
+        case = json.load(f)["case"]
+    r = run_case(case)
+    kind, detail = observe(case, r)
+    print(json.dumps({"call": brief(case), "spec": case["exp"], "model": case["impl"], "deviations": case["why"],
+                      "torch": r["torch"], "onnx": r["onnx"], "reference": r.get("ref"), "verdict": kind, "detail": detail}, indent=1, default=str))
+    return 1 if kind in ("wrong", "refused") else 0
